@@ -44,7 +44,10 @@ func (srv *Srv) NewConn(c net.Conn) {
 }
 
 func (conn *Conn) close() {
-	conn.done <- true
+	// Nobody reads any more: stop the sender, also one stuck in Write, and
+	// release the workers waiting to hand it a reply.
+	close(conn.done)
+	_ = conn.conn.Close()
 	conn.Srv.Lock()
 	delete(conn.Srv.conns, conn)
 	conn.Srv.Unlock()
@@ -56,11 +59,29 @@ func (conn *Conn) close() {
 		op.ConnClosed(conn)
 	}
 
-	/* call FidDestroy for all remaining fids */
-	if op, ok := (conn.Srv.ops).(SrvFidOps); ok {
-		for _, fid := range conn.fidpool {
-			op.FidDestroy(fid)
-		}
+	/* destroy all remaining fids; if requests are still executing they may
+	 * be using, clunking or creating fids, so the last of them to finish
+	 * does it instead (see Respond) */
+	conn.Lock()
+	conn.closed = true
+	idle := len(conn.reqs) == 0
+	conn.Unlock()
+	if idle {
+		conn.destroyFids()
+	}
+}
+
+// Drops the fid table's reference to every fid of a closed connection that
+// no request is using any more, which destroys them.
+func (conn *Conn) destroyFids() {
+	conn.Lock()
+	fids := make([]*SrvFid, 0, len(conn.fidpool))
+	for _, fid := range conn.fidpool {
+		fids = append(fids, fid)
+	}
+	conn.Unlock()
+	for _, fid := range fids {
+		fid.DecRef()
 	}
 }
 
